@@ -278,3 +278,215 @@ func VHClear() {
 	v.Assert(v.And(ok, y == x), "C15:clear-then-put-get")
 	v.Assert(t.Size() == 1, "C15:clear-then-put-size")
 }
+
+func (s *VSum[V]) VOutside(hasA bool, a int, hasB bool, b int) bool {
+	ok := s.size == 0
+	if hasA && s.hasHi {
+		ok = v.Or(ok, !vl.Less(a, s.hi))
+	}
+	if hasB && s.hasLo {
+		ok = v.Or(ok, !vl.Less(s.lo, b))
+	}
+	return ok
+}
+
+// VHNav: Floor / Ceiling / Left / Right on an arbitrary tree with an arbitrary probe key (C02), read-only (C18).
+func VHNav() {
+	t, _ := VNewTree(v.Cfg("H"), vNewInt)
+	op := v.CfgOr("op", -1)
+	if op < 0 {
+		op = v.Split(v.IntIn("op", 0, 3), 0, 3)
+	}
+	q := v.Int("q")
+	var node *Node[int, int]
+	found := false
+	v.BeginOp(true, t)
+	switch op {
+	case 0:
+		node, found = t.Floor(q)
+	case 1:
+		node, found = t.Ceiling(q)
+	case 2:
+		node = t.Left()
+		found = node != nil
+	case 3:
+		node = t.Right()
+		found = node != nil
+	}
+	v.EndOp()
+	items := VPost(&t.Root, nil, 0)
+	v.Assert(found == (node != nil), "C02:found-iff-node")
+	if node != nil {
+		vl.Holds(items, node.Key, node.Value, "C02:result-is-an-element")
+	}
+	switch op {
+	case 0:
+		if found {
+			v.Assert(!vl.Less(q, node.Key), "C02:floor-not-above-key")
+			vl.Outside(items, true, node.Key, false, true, q, true, "C02:floor-greatest")
+		} else {
+			vl.Outside(items, false, 0, false, true, q, true, "C02:floor-notfound-but-exists")
+		}
+	case 1:
+		if found {
+			v.Assert(!vl.Less(node.Key, q), "C02:ceiling-not-below-key")
+			vl.Outside(items, true, q, true, true, node.Key, false, "C02:ceiling-least")
+		} else {
+			vl.Outside(items, true, q, true, false, 0, false, "C02:ceiling-notfound-but-exists")
+		}
+	case 2:
+		if found {
+			vl.Outside(items, false, 0, false, true, node.Key, false, "C02:left-least")
+		} else {
+			vl.Outside(items, false, 0, false, false, 0, false, "C02:left-nil-but-nonempty")
+		}
+	case 3:
+		if found {
+			vl.Outside(items, true, node.Key, false, false, 0, false, "C02:right-greatest")
+		} else {
+			vl.Outside(items, false, 0, false, false, 0, false, "C02:right-nil-but-nonempty")
+		}
+	}
+}
+
+// vPick chooses an arbitrary node of the tree by a symbolic descent from the root.
+func vPick[V any](t *Tree[int, V]) *Node[int, V] {
+	n := t.Root
+	if n == nil {
+		v.Assume(false)
+	}
+	for {
+		if v.Bool("stop") {
+			return n
+		}
+		var c *Node[int, V]
+		if v.Bool("goleft") {
+			c = n.Left
+		} else {
+			c = n.Right
+		}
+		if c == nil {
+			v.Assume(false)
+		}
+		n = c
+	}
+}
+
+const (
+	VItNext = iota
+	VItPrev
+	VItBegin
+	VItEnd
+	VItFirst
+	VItLast
+	VItNextTo
+	VItPrevTo
+)
+
+// VHIter: one iterator call from an arbitrary cursor state (begin, end, or at an arbitrary node) (C08, C02).
+func VHIter() {
+	t, _ := VNewTree(v.Cfg("H"), vNewInt)
+	op := v.CfgOr("op", -1)
+	if op < 0 {
+		op = v.Split(v.IntIn("op", 0, 5), 0, 5)
+	}
+	pos := v.Split(v.IntIn("pos", 0, 2), 0, 2)
+	v.BeginOp(true, t)
+	it := t.Iterator()
+	var x *Node[int, int]
+	if pos == 1 {
+		x = vPick(t)
+		it = t.IteratorAt(x)
+	} else if pos == 2 {
+		it.End()
+	}
+	hasX := x != nil
+	xk := 0
+	if hasX {
+		xk = x.Key
+	}
+	ok := false
+	moved := true
+	switch op {
+	case VItNext:
+		ok = it.Next()
+	case VItPrev:
+		ok = it.Prev()
+	case VItBegin:
+		it.Begin()
+		moved = false
+	case VItEnd:
+		it.End()
+		moved = false
+	case VItFirst:
+		ok = it.First()
+	case VItLast:
+		ok = it.Last()
+	}
+	var r *Node[int, int]
+	if ok {
+		r = it.Node()
+		v.Assert(r != nil, "C08:node-after-successful-move")
+		if r == nil {
+			return
+		}
+		v.Assert(v.And(it.Key() == r.Key, it.Value() == r.Value), "C08:key-value-of-position")
+	}
+	v.EndOp()
+	items := VPost(&t.Root, nil, 0)
+	if ok {
+		vl.Holds(items, r.Key, r.Value, "C08:position-is-an-element")
+	}
+	if !moved {
+		// Begin/End: the next step must behave as from the sentinel
+		if op == VItBegin {
+			v.Assert(it.position == begin, "C08:begin-position")
+		} else {
+			v.Assert(it.position == end, "C08:end-position")
+		}
+		v.Assert(it.node == nil, "C08:sentinel-node")
+		return
+	}
+	forward := op == VItNext || op == VItFirst
+	fromBegin := op == VItFirst || (op == VItNext && pos == 0)
+	fromEnd := op == VItLast || (op == VItPrev && pos == 2)
+	switch {
+	case forward && fromBegin:
+		if ok {
+			vl.Outside(items, false, 0, false, true, r.Key, false, "C08,C02:first-is-least")
+		} else {
+			vl.Outside(items, false, 0, false, false, 0, false, "C08:next-from-begin-false-but-nonempty")
+		}
+	case forward && pos == 2:
+		v.Assert(!ok, "C08:next-saturates-at-end")
+	case forward:
+		if ok {
+			v.Assert(vl.Less(xk, r.Key), "C08,C02:next-ascends")
+			vl.Outside(items, true, xk, false, true, r.Key, false, "C08,C02:next-skips-nothing")
+		} else {
+			vl.Outside(items, true, xk, false, false, 0, false, "C08:next-false-but-later-element")
+		}
+	case fromEnd:
+		if ok {
+			vl.Outside(items, true, r.Key, false, false, 0, false, "C08,C02:last-is-greatest")
+		} else {
+			vl.Outside(items, false, 0, false, false, 0, false, "C08:prev-from-end-false-but-nonempty")
+		}
+	case pos == 0:
+		v.Assert(!ok, "C08:prev-saturates-at-begin")
+	default:
+		if ok {
+			v.Assert(vl.Less(r.Key, xk), "C08,C02:prev-descends")
+			vl.Outside(items, true, r.Key, false, true, xk, false, "C08,C02:prev-skips-nothing")
+		} else {
+			vl.Outside(items, false, 0, false, true, xk, false, "C08:prev-false-but-earlier-element")
+		}
+	}
+	if ok {
+		v.Assert(it.position == between, "C08:position-between")
+	} else if forward {
+		v.Assert(v.And(it.position == end, it.node == nil), "C08:position-end")
+	} else {
+		v.Assert(v.And(it.position == begin, it.node == nil), "C08:position-begin")
+	}
+}
